@@ -1,6 +1,7 @@
 import Driver.Base
 import Driver.ZoneCmds
 import Driver.CacheCmds
+import Driver.UpstreamCmds
 import Resolved.Spec.RefDecode
 
 namespace Resolved.Driver
@@ -112,6 +113,8 @@ def dispatch (fields : List String) : Result :=
   | ["cache.hist", d, ops, impl] => cmdCacheHist d ops impl false
   | ["cache.hist-ties", d, ops, impl] => cmdCacheHist d ops impl true
   | ["cache.inv", _, impl] => cmdCacheInv impl
+  | ["upstream.validate", q, mc, m, impl] => cmdValidate q mc m impl
+  | ["upstream.matches", a, b, impl] => cmdMatches a b impl
   | cmd :: _ => bad ("unknown " ++ cmd)
   | [] => bad "empty"
 
